@@ -93,6 +93,20 @@ def c08(ck):
         ck.replay_stage("body2", "MC_C08", "MC_C08_thorough.cfg", tlc_workers=12, timeout=3400)
 
 
+def c09(ck):
+    ck.rule = ("every history of 3 render calls over 3 templates x 3 data objects (729) for each of 3 template triples, on one shared "
+               "parser with the lazy store and again with the eager store; templates use cycle (named and unnamed), increment, decrement, "
+               "ifchanged, assign, capture, break/continue (also pending at an error and pending after tablerow), dynamic include names, "
+               "render, broken and missing partials; non-trivial = at least 2 calls; thorough adds random histories of 6 calls")
+    ck.assumptions = ["iteration order of multi-key objects never enters an output",
+                      "each call is compared with the specification's function of (template, data) on the shared parser and on a fresh parser"]
+    ck.replay_stage("hist3lazy", "MC_C09", "MC_C09_lazy.cfg")
+    ck.replay_stage("hist3eager", "MC_C09", "MC_C09_eager.cfg")
+    if ck.tier != "quick":
+        ck.replay_stage("walks6", "MC_C09", "MC_C09_sim6.cfg", simulate=3000, depth=700, seed=ck.seed, exhaustive=False,
+                        tlc_workers=8, timeout=3000)
+
+
 def c19(ck):
     ck.rule = ("the C08 scenarios (callers x partial bodies x data, with valid, broken, absent and .liquid-suffixed partials, literal "
                "and dynamic names) run in the model under each of the three store policies; every scenario is replayed on three real "
@@ -105,7 +119,7 @@ def c19(ck):
         ck.replay_stage("body2x3policies", "MC_C08", "MC_C19_thorough.cfg", tlc_workers=12, timeout=3400)
 
 
-PROPS = {"C04": c04, "C06": c06, "C07": c07, "C08": c08, "C19": c19, "C05": c05, "C18": c18}
+PROPS = {"C04": c04, "C06": c06, "C07": c07, "C08": c08, "C09": c09, "C19": c19, "C05": c05, "C18": c18}
 
 
 def replay_file(prop, path):
